@@ -31,7 +31,7 @@ func runC02(c *rt.Ctx) {
 	cfgs = append(cfgs, Cfg{Orca: "l1l2b", Lock: "multi", Proto: "binary", L1H: "std"}, Cfg{Orca: "l1l2b", Lock: "single", Proto: "binary", L1H: "std"})
 	maxLen, depth := 2, 4
 	if c.Thorough() {
-		maxLen, depth = 3, 0
+		maxLen, depth = 4, 0
 	}
 	// Work items are (configuration, first event) pairs so that 16 workers have something to do;
 	// each worker runs the BFS of its configurations (BFS needs the whole seen-set in one place).
